@@ -35,6 +35,9 @@ func c19(c *Ctx) {
 	boundsFor(c, "C19", []*ssa.Function{um, ma})
 	accFreshFor(c, 4, "vlaextension.go")
 	r.Floor("VLA stream/spatial walks", vlaWalkRule(c), 8)
+	if k := scanAllRule(c, "rtp.commonSLBMValues", "shared spatial-layer bitmask"); k > 0 {
+		r.Infof("SCAN.all: %d return(s) of a scan result checked", k)
+	}
 	if k := vlaSizeRule(c); k == 0 {
 		r.Infof("SIBLING.vlasize: no store into requiredLen whose value depends only on the stream count and the number of layers: not decided")
 	}
